@@ -12,6 +12,7 @@
 //	hplan <reads> <stop>                                handler read plan
 //	resp <status> <cl> <hl> <wl> <trmode> <trhl>        handler response plan
 //	cplan <reads> <stop>                                client read plan
+//	interim <1xx.1xx…>                                  interim responses the handler sends first (100, 102, 103)
 //	req <method> <path> <cl> <nobody> <hl> <chunks> <trhl>   => handler-observed request
 //	wres                                                => results of the handler's Write calls
 //	cres                                                => client-received response
@@ -345,6 +346,7 @@ func (p c34ReadPlan) run(r io.Reader) (data []byte, end string) {
 }
 
 type c34RespPlan struct {
+	interim []int // 1xx statuses sent first with w.WriteHeader
 	status int // 0: implicit
 	cl     int
 	h      []c34Field
@@ -409,6 +411,9 @@ func c34Handler(hp c34ReadPlan, rp c34RespPlan, obs *c34Observed, done chan stru
 		}
 		if rp.trmode == "d" {
 			w.Header().Set("Trailer", strings.Join(c34Names(rp.tr), ", "))
+		}
+		for _, code := range rp.interim {
+			w.WriteHeader(code) // interim response; the final one follows
 		}
 		if rp.status != 0 {
 			w.WriteHeader(rp.status)
@@ -1175,6 +1180,7 @@ func (x *c34Exec) exec(ops []string, o *vu.Out) {
 	}
 	x.rig.tn.setFaults(0, 0, 0, 0)
 	var wres, cres string
+	var interim []int
 	for _, op := range ops {
 		f := strings.Fields(op)
 		res := "bad-op"
@@ -1197,6 +1203,21 @@ func (x *c34Exec) exec(ops []string, o *vu.Out) {
 				}
 				x.rig.tn.setFaults(seed, d, r, u)
 				c.wbuf = w
+				res = "ok"
+			case "interim":
+				if len(f) != 2 {
+					return
+				}
+				var codes []int
+				for _, tok := range strings.Split(f[1], ".") {
+					n, err := strconv.Atoi(tok)
+					if err != nil || (n != 100 && n != 102 && n != 103) {
+						return
+					}
+					codes = append(codes, n)
+				}
+				interim = codes
+				c.rp.interim = codes
 				res = "ok"
 			case "hplan", "cplan":
 				if len(f) != 3 {
@@ -1242,7 +1263,7 @@ func (x *c34Exec) exec(ops []string, o *vu.Out) {
 				if (f[5] == "-") != (len(tr) == 0) {
 					return
 				}
-				c.rp = c34RespPlan{status: st, cl: cl, h: h, writes: ws, trmode: f[5], tr: tr}
+				c.rp = c34RespPlan{interim: interim, status: st, cl: cl, h: h, writes: ws, trmode: f[5], tr: tr}
 				res = "ok"
 			case "req":
 				if len(f) != 8 {
